@@ -38,6 +38,8 @@ def parseRequest (line : String) : Option (String × String × List String) :=
 
 abbrev R := Except Unit
 
+deriving instance DecidableEq for Except
+
 /-- `read_token`. -/
 def readToken (toks : List String) (i : Nat) : R String :=
   match toks[i]? with
